@@ -41,7 +41,14 @@ func (w *world) contactKey(minor int, lastContact time.Time) string {
 }
 
 func (w *world) judged(minor int, lastContact time.Time) bool {
-	return !w.lastEntry[minor].IsZero() && w.lastEntry[minor].Sub(lastContact) >= lapseAfter
+	e := w.entered(minor)
+	return !e.IsZero() && e.Sub(lastContact) >= lapseAfter
+}
+
+func (w *world) entered(minor int) time.Time {
+	w.entryMu.Lock()
+	defer w.entryMu.Unlock()
+	return w.lastEntry[minor]
 }
 
 func (w *world) lapsed40(c *client40) bool { return c.haveID && w.judged(0, c.lastContact) }
@@ -50,7 +57,7 @@ func (w *world) lapsed41(c *client41) bool { return c.haveID && w.judged(1, c.la
 // checkLapsed is the passive half; the identifier renamings must be fresh.
 func (w *world) checkLapsed(f failer) {
 	since := func(t time.Time, minor int) string {
-		return fmt.Sprintf("its last request was sent %s before the last request entered the NFSv4.%d server (lease time %s)", w.lastEntry[minor].Sub(t), minor, lease)
+		return fmt.Sprintf("its last request was sent %s before the last request entered the NFSv4.%d server (lease time %s)", w.entered(minor).Sub(t), minor, lease)
 	}
 	lapsedHolds := map[*fakeLeaf]string{}
 	otherHolds := map[*fakeLeaf]bool{}
